@@ -79,6 +79,9 @@ class DynAttr:
 
     def hasattr(self, it, obj, name):
         cn = self.const_name(name)
+        if cn is not None and isinstance(obj, SV) and obj.ty in self.world.classes \
+                and cn in (self.world.classes[obj.ty].get('dyn_fields') or {}):
+            return SV(V.BoolV(z3.Select(z3.Select(self.has_arr(it), V.oid(obj.t)), z3.StringVal(cn))))
         if cn is not None and isinstance(obj, SV) and obj.ty in self.world.classes:
             w = self.world
             if w.field_type(obj.ty, cn) is not None or w.defining_class(obj.ty, cn) is not None:
@@ -90,6 +93,11 @@ class DynAttr:
 
     def getattr(self, it, obj, name, default):
         cn = self.const_name(name)
+        if cn is not None and isinstance(obj, SV) and obj.ty in self.world.classes \
+                and cn in (self.world.classes[obj.ty].get('dyn_fields') or {}) and it.mode == 'spec':
+            dty = self.world.classes[obj.ty]['dyn_fields'][cn]
+            val = z3.Select(z3.Select(self.val_arr(it), V.oid(obj.t)), z3.StringVal(cn))
+            return SV(val, dty if dty in self.world.classes else None)
         if cn is not None:
             try:
                 return self.world.calls.getattr(it, obj, cn, None)
